@@ -131,6 +131,8 @@ func (w *wideRun) offerWide(wc wideCase, c *lib.Bundle, detail string, pos int) 
 		w.res.Violate(lib.Violation{Sig: "store-hangs:wide:" + wc.Kind, What: "offering the block does not return: " + detail, Replay: rp})
 	case r.panicked:
 		w.res.Hit("rejected-by-panic:wide:" + wc.Kind)
+		rp.Note = trunc(r.stack, 1200)
+		w.res.Violate(lib.Violation{Sig: "store-panics:wide:" + wc.Kind, What: fmt.Sprintf("SanityCheckNewHeight/Store panics: %s: %v", detail, r.err), Replay: rp})
 	case r.err == nil && wc.Kind == "tx" && singletonRejected(w.g, c, wc.Pos):
 		w.res.Violate(lib.Violation{Sig: "transaction-not-verified-at-its-position",
 			What: fmt.Sprintf("GOMAXPROCS=%d, block of %d transactions, position %d (%s): %s — the tampered block was stored (new-state backend: %v)",
@@ -235,7 +237,7 @@ func (w *wideRun) runTxFamily(p int, newSt bool, rng *lib.RNG) {
 		}
 		b, err := w.g.Next(spec)
 		if err != nil {
-			w.res.Note("wide generator: %v", err)
+			w.res.Fatalf("wide generator: %v", err)
 			return
 		}
 		sites := txFieldSites(b)
@@ -287,7 +289,7 @@ func (w *wideRun) runClassFamily(p int, newSt bool, rng *lib.RNG) {
 		}
 		b, err := w.g.Next(&lib.BlockSpec{Version: "0.14.0", Diff: &d, Classes: classes, NoTxs: true})
 		if err != nil {
-			w.res.Note("wide class generator: %v", err)
+			w.res.Fatalf("wide class generator: %v", err)
 			return
 		}
 		w.snapshot()
@@ -326,7 +328,7 @@ func (w *wideRun) runStateFamily(p int, newSt bool, rng *lib.RNG) {
 			da.DeployedContracts[a] = &c
 		}
 		if _, err := w.g.Next(&lib.BlockSpec{Version: "0.14.0", Diff: &da, NoTxs: true}); err != nil {
-			w.res.Note("wide state generator: %v", err)
+			w.res.Fatalf("wide state generator: %v", err)
 			return
 		}
 		if !w.storeValid(bi) {
@@ -340,7 +342,7 @@ func (w *wideRun) runStateFamily(p int, newSt bool, rng *lib.RNG) {
 		}
 		b, err := w.g.Next(&lib.BlockSpec{Version: "0.14.0", Diff: &db, NoTxs: true})
 		if err != nil {
-			w.res.Note("wide state generator: %v", err)
+			w.res.Fatalf("wide state generator: %v", err)
 			return
 		}
 		w.snapshot()
@@ -412,7 +414,7 @@ func runWide(f lib.Flags, res *lib.Result, only *wideCase) {
 func (w *wideRun) runTxFamilyWithChecker(p int, newSt bool, rng *lib.RNG) {
 	// the checker only needs the network of the generator; give it a throw-away generator's
 	if w.only == nil {
-		w.ac = newAcceptChecker(w.f, lib.NewChainGen(lib.NewRNG(1), false, lib.DefaultGenOptions()))
+		w.ac = newAcceptChecker(w.f, w.res, lib.NewChainGen(lib.NewRNG(1), false, lib.DefaultGenOptions()))
 		defer w.ac.close()
 	}
 	w.runTxFamily(p, newSt, rng)
